@@ -637,7 +637,7 @@ class SimTimeMachine(Machine):
     name = "simtime"
     properties = ("C04", "C14")
     runs = {"quick": 4000, "thorough": 300000}
-    run_timeout = 120.0
+    run_timeout = 40.0
     real_components = [
         "mxlpy.Simulator (simulate, simulate_time_course, simulate_protocol, simulate_protocol_time_course, overrides, clear_results, get_result)",
         "mxlpy.integrators.Scipy (continuation state t0/y0, solve_ivp) in the runs that say integrator=scipy",
